@@ -251,7 +251,7 @@ From DV Require Import C06.Lexer C06.LexerProofs C06.LexerText.
 
 (* the model of Lexer::next_token iterated (keywords with their terminators, symbols, numerals, string literals, names through the
    part collector of C10, the between / type-name flags) reads back every printable token list from the text with one space after
-   every token.  keys_ok: the scope keys are single words (name characters that are not white space as well), pairwise different,
+   every token.  keys_ok: the scope keys are single words (name characters; no white space character is one), pairwise different,
    no keyword spelling, no built-in type name.  printable: names are scope keys, not where a type is expected; type names are one of
    number string boolean Any Null time and stand where a type is expected; `and` is the separator exactly while the between flag is
    set; numerals are digits with an optional fraction; strings consist of Unicode scalar values; For / Some / Every / Function /
@@ -261,7 +261,7 @@ Proof. exact lex_unlex. Qed.
 Print Assumptions C06_lex_unlex.
 
 (* the same with any layout of the grammar of C06_layout_skipped before the first token and, behind one space, after every token
-   (gap_ok: pieces of that grammar that do not contain U+1680, which is white space and a name character at once) *)
+   (gap_ok: any pieces of that grammar; the former restriction to pieces without U+1680 is gone with the repair of is_name_start_char) *)
 Theorem C06_lex_unlex_layout : forall keys ts lead gaps, keys_ok keys = true -> printable keys ts = true ->
   forallb piece_ok lead = true -> forallb gap_ok gaps = true ->
   lex keys (render_layout lead ++ unlex_lay gaps ts) = Some ts.
@@ -527,7 +527,8 @@ Print Assumptions C06_text_roundtrip_ext_partial.
    remark of the time already named: the lexer carries the flag policy for the binders (lex_b: till_in also behind the comma between two
    iteration contexts, type_name behind the colon of a formal parameter) and `name in` where a binding is expected is read as a binding
    (parse_text_all = lex_b, eabs_b, eparse_tokens; parse_text_ext below reads it as an atom and the operator in, so the proposition in
-   this literal form fails on every tree with a binder), and the variable of a binding must not be the name `item` (names_all) *)
+   this literal form fails on every tree with a binder).  (The third change of the time, "the variable of a binding must not be the name
+   `item`", is gone: consume_name is repaired, see C06_text_item_variable_orig_refuted) *)
 Definition C06_text_roundtrip_ext_statement : Prop :=
   forall keys enc dec (t : etree), keys_ok keys = true -> atoms_ok keys enc dec ->
   eflag_ok false (erender_min t) = true ->
@@ -545,14 +546,15 @@ From DV Require C06.LexBindProofs C06.ExtTextAll C06.ExtTrack C06.ExtTextTrees.
    of a function definition; a comma sets till_in when the innermost open thing is a header, a colon sets type_name when it is a
    parameter list; between after BETWEEN and type_name after OF as before) reads back every token list that is printable in the
    extended sense (printable_b = printable of C06_lex_unlex, plus: for / some / every; `function` directly followed by `(`; while
-   till_in is set, a single word that is no keyword and not `item`, followed by `in` -- it need not be a scope key) *)
+   till_in is set, a single word that is no keyword, followed by `in` -- it need not be a scope key; `item` included) *)
 Theorem C06_lex_b_unlex : forall keys ts, keys_ok keys = true -> printable_b keys tstate0 flags0 ts = true -> lex_b keys (unlex ts) = Some ts.
 Proof. exact LexBindProofs.lex_b_unlex. Qed.
 Print Assumptions C06_lex_b_unlex.
 
 (* ... with any layout of the modelled grammar before the first token and, behind one space, after every token, except (gaps_ok_b) behind
    `function` and behind the variable of a binding: there only white space characters that are no name characters (a comment between
-   `function` and `(` makes the keyword a name, a comment or U+180E / U+FEFF between the variable and `in` becomes part of the variable) *)
+   `function` and `(` makes the keyword a name, a comment between the variable and `in` becomes part of the variable: its `/` and `*` are
+   additional name symbols) *)
 Theorem C06_lex_b_unlex_layout : forall keys ts lead gaps, keys_ok keys = true ->
   printable_b keys tstate0 flags0 ts = true -> gaps_ok_b tstate0 flags0 ts gaps = true ->
   forallb piece_ok lead = true -> forallb gap_ok gaps = true ->
@@ -569,7 +571,7 @@ Print Assumptions C06_track_renderings.
 
 (* whatever the extended Spec parser makes of a token list it makes of its text, for ALL token lists (binder tokens included) that meet
    etrack_ok, are outside the known finding between-lower-bound-and (eflag_ok) and whose names are in range (names_all: type numbers < 6;
-   member names, keys, variables and parameter names positions in keys; the variable of a binding not `item`) *)
+   member names, keys, variables and parameter names positions in keys) *)
 Theorem C06_parse_text_unlex_all : forall keys enc dec ts, keys_ok keys = true -> atoms_ok keys enc dec ->
   eflag_ok false ts = true -> forallb (names_all keys) ts = true -> etrack_ok tstate0 ts = true ->
   parse_text_all keys dec (unlex (econc_all keys enc ts)) = eparse_tokens ts.
@@ -579,7 +581,7 @@ Print Assumptions C06_parse_text_unlex_all.
 (* THE ROUND TRIP FROM TEXT FOR ALL TREES of the extended language (for, some, every, function included; no bound): the text of the minimal
    and of the full rendering parses back to the tree.  Side conditions: the scope keys are single words, pairwise different, no keywords, no
    built-in type names (keys_ok); the dictionary writes every atom as a literal or a scope key and reads it back (atoms_ok); the rendering is
-   outside the known finding between-lower-bound-and (eflag_ok); names_all *)
+   outside the known finding between-lower-bound-and (eflag_ok); names_all (nothing about binders: any scope key may be a variable, `item` too) *)
 Theorem C06_text_roundtrip_min_all : forall keys enc dec t, keys_ok keys = true -> atoms_ok keys enc dec ->
   eflag_ok false (erender_min t) = true -> forallb (names_all keys) (erender_min t) = true ->
   parse_text_all keys dec (unlex (econc_all keys enc (erender_min t))) = Some t.
@@ -630,18 +632,23 @@ Example C06_text_nonvacuous_all :
 Proof. exact ExtTextTrees.text_example_all. Qed.
 Print Assumptions C06_text_nonvacuous_all.
 
-(* the side condition on the variable is needed (known finding item-iteration-variable): with `item` among the scope keys the tree
-   for item in b return (c in d) is read back by the extended Spec parser from its tokens, but its text `for item in b return c in d ` is
-   lexed as for, item, in, the NAME `b return c`, in, d (consume_name returns `item` before it looks at till_in, the flag stays set and the
-   next name with an `in` among its parts is cut there) and has no tree; the real parser reports a syntax error *)
-Theorem C06_text_item_variable_refuted :
+(* `item` as the variable of an iteration context (formerly the known finding item-iteration-variable, repaired in /repo): with `item` among
+   the scope keys the tree for item in b return (c in d) meets every side condition of C06_text_roundtrip_min_all.  With consume_name as it
+   was (lex_b_orig / parse_text_all_orig: the same model over Lexer.name_token_orig, which returns `item` before it looks at till_in and
+   leaves the flag set) its text `for item in b return c in d ` was lexed as for, item, in, the NAME `b return c`, in, d (the next name with
+   an `in` among its parts is cut there) and had no tree: the real parser reported a syntax error.  The repaired lexer clears the flag in
+   the `item` branch and the text parses back to the tree *)
+Theorem C06_text_item_variable_orig_refuted :
   keys_ok ExtTextTrees.keys_item = true /\ eflag_ok false (erender_min ExtTextTrees.etree_item) = true /\
-  forallb (names_all ExtTextTrees.keys_item) (erender_min ExtTextTrees.etree_item) = false /\
+  forallb (names_all ExtTextTrees.keys_item) (erender_min ExtTextTrees.etree_item) = true /\
   eparse_tokens (erender_min ExtTextTrees.etree_item) = Some ExtTextTrees.etree_item /\
   unlex (econc_all ExtTextTrees.keys_item ExtTextTrees.enc_item (erender_min ExtTextTrees.etree_item)) =
     [102; 111; 114; 32; 105; 116; 101; 109; 32; 105; 110; 32; 98; 32; 114; 101; 116; 117; 114; 110; 32; 99; 32; 105; 110; 32; 100; 32]%N /\
-  lex_b ExtTextTrees.keys_item (unlex (econc_all ExtTextTrees.keys_item ExtTextTrees.enc_item (erender_min ExtTextTrees.etree_item))) =
+  lex_b_orig ExtTextTrees.keys_item (unlex (econc_all ExtTextTrees.keys_item ExtTextTrees.enc_item (erender_min ExtTextTrees.etree_item))) =
     Some [LKw KFor; LName NM.str_item; LKw KIn; LName [98; 32; 114; 101; 116; 117; 114; 110; 32; 99]; LKw KIn; LName [100]]%N /\
-  parse_text_all ExtTextTrees.keys_item ExtTextTrees.dec_item (unlex (econc_all ExtTextTrees.keys_item ExtTextTrees.enc_item (erender_min ExtTextTrees.etree_item))) = None.
+  parse_text_all_orig ExtTextTrees.keys_item ExtTextTrees.dec_item (unlex (econc_all ExtTextTrees.keys_item ExtTextTrees.enc_item (erender_min ExtTextTrees.etree_item))) = None /\
+  lex_b ExtTextTrees.keys_item (unlex (econc_all ExtTextTrees.keys_item ExtTextTrees.enc_item (erender_min ExtTextTrees.etree_item))) =
+    Some [LKw KFor; LName NM.str_item; LKw KIn; LName [98]; LKw KReturn; LName [99]; LKw KIn; LName [100]]%N /\
+  parse_text_all ExtTextTrees.keys_item ExtTextTrees.dec_item (unlex (econc_all ExtTextTrees.keys_item ExtTextTrees.enc_item (erender_min ExtTextTrees.etree_item))) = Some ExtTextTrees.etree_item.
 Proof. exact ExtTextTrees.text_item_witness. Qed.
-Print Assumptions C06_text_item_variable_refuted.
+Print Assumptions C06_text_item_variable_orig_refuted.
